@@ -21,6 +21,7 @@ type Case struct {
 	Amps []int64 `json:"amps"`
 	Pad  int     `json:"pad,omitempty"` // the amplitudes are repeated cyclically up to this buffer length
 	Fix  int     `json:"fix,omitempty"` // source construction order, see convtab.Entry.NewBlockFix
+	Ch   int     `json:"ch,omitempty"`  // channel count of the buffers (0 = 1): the values are interleaved over several channels
 }
 
 // Pairs are the 121 fixed-to-fixed instantiations.
@@ -38,7 +39,7 @@ func Check(c *Case) (res kit.Result) {
 	}
 	ds, dd := e.S.Bits, e.D.Bits
 	lo, hi := numkit.Lo(ds), numkit.Hi(ds)
-	if c.Pad < 0 || c.Pad > 1<<20 || c.Fix < 0 || c.Fix > 2 {
+	if c.Pad < 0 || c.Pad > 1<<20 || c.Fix < 0 || c.Fix > 2 || c.Ch < 0 || c.Ch > 64 {
 		return
 	}
 	in := kit.PadInts(append([]int64{lo, 0, hi}, c.Amps...), c.Pad)
@@ -52,7 +53,7 @@ func Check(c *Case) (res kit.Result) {
 	}
 	sort.Slice(in, func(i, j int) bool { return in[i] < in[j] })
 	out := make([]int64, len(in))
-	if p, v := kit.Try(func() { e.NewBlockFix(c.Fix)(in, nil, out, nil) }); p {
+	if p, v := kit.Try(func() { e.NewBlockShape(c.Fix, c.Ch)(in, nil, out, nil) }); p {
 		res.Failf("%s panicked: %v", e, v)
 		return
 	}
@@ -63,7 +64,7 @@ func Check(c *Case) (res kit.Result) {
 		for i, j := range perm {
 			pin[i] = in[j]
 		}
-		if p, v := kit.Try(func() { e.NewBlockFix(c.Fix)(pin, nil, pout, nil) }); p {
+		if p, v := kit.Try(func() { e.NewBlockShape(c.Fix, c.Ch)(pin, nil, pout, nil) }); p {
 			res.Failf("%s panicked: %v", e, v)
 			return
 		}
@@ -135,6 +136,7 @@ func FP(c *Case) uint64 {
 	h.Int(len(c.Amps))
 	h.Int(c.Pad)
 	h.Int(c.Fix)
+	h.Int(c.Ch)
 	for _, a := range c.Amps {
 		h.U64(uint64(a))
 	}
@@ -152,6 +154,7 @@ func Gen(t *rapid.T) *Case {
 	c := &Case{S: e.S.Name, D: e.D.Name}
 	c.Pad = kit.GenPad(t)
 	c.Fix = rapid.IntRange(0, 2).Draw(t, "fix")
+	c.Ch = rapid.SampledFrom([]int{1, 1, 2, 3, 5, 8}).Draw(t, "ch")
 	n := rapid.IntRange(2, 24).Draw(t, "n")
 	base := kit.GenAmp(t, e.S.Bits, bAmps[e.S.Bits])
 	for i := 0; i < n; i++ {
